@@ -757,5 +757,15 @@ class SimpleStreamUpdater(StreamUpdater):
         if replication_nr < 0:
             raise ValueError("replication_nr < 0")
         stream.set_seed(stream.original_seed() + replication_nr * 
-                        (1_000_037 + hash(stream_id)))
+                (1_000_037 + SimpleStreamUpdater._hash_code(stream_id)))
+
+    @staticmethod
+    def _hash_code(text: str) -> int:
+        """Return a hash of the string that is the same in every interpreter
+        process (Java's String.hashCode, unsigned 32 bits). The built-in
+        hash() of a str is randomized per process."""
+        h = 0
+        for ch in text:
+            h = (31 * h + ord(ch)) % 4294967296
+        return h
 
